@@ -136,7 +136,7 @@ func RunIterators(conf core.Config) *core.Result {
 						Rule: "GRAPHINV.iter",
 						Key:  fmt.Sprintf("GRAPHINV.iter|%s|%s", name, tname),
 						Pos:  core.Pos(rs.Pos()), Func: name,
-						Msg:  fmt.Sprintf("Next() can return true on a path that advances none of the cursor fields read by Len() (%v): Len would not decrease and the iterator could run past its end", keys(cursor)),
+						Msg: fmt.Sprintf("Next() can return true on a path that advances none of the cursor fields read by Len() (%v): Len would not decrease and the iterator could run past its end", keys(cursor)),
 					})
 				}
 			}
